@@ -147,6 +147,11 @@ impl PciTransport {
                     .configuration_access
                     .read_word(device_function, capability.offset + CAP_LENGTH_OFFSET),
             };
+            // > The driver MUST ignore any vendor-specific capability structure which has a reserved
+            // > bar value.
+            if struct_info.bar > 5 {
+                continue;
+            }
 
             match cfg_type {
                 VIRTIO_PCI_CAP_COMMON_CFG if common_cfg.is_none() => {
